@@ -1,6 +1,870 @@
-(* Smb.v -- src/proto/smb.rs (placeholder until the SMB responder is modelled:
-   the model answers nothing; C17 is not claimed while this stands). *)
-From MS Require Export Bytes Types.
+(* Smb.v -- src/proto/smb.rs (NetBIOS session + SMB1/SMB2 Negotiate and
+   Session-Setup responder) and src/proto/dissector.rs (PacketDissector).
+   Model file: definitions only.
 
-Definition smb1_repl (blob : bytes) (filetime : N) (data : bytes) : option bytes := None.
-Definition smb2_repl (blob : bytes) (filetime : N) (data : bytes) : option bytes := None.
+   The Rust code is a stack of byte-at-a-time parsers (NBTSession<T> ->
+   SMB{1,2}Header -> payload), each with its own PacketDissector {i, state}.
+   repl_smb1 / repl_smb2 build a FRESH NBTSession per call, feed it every byte
+   of the datagram / segment, then call repl().  The model keeps that shape:
+   one record per parser, one [*_byte : state -> N -> res state] per parser,
+   and a left fold over the data.
+
+   Integer widths: PacketDissector.i and the accumulators of _read_usize /
+   _read_ulesize are usize (64 bit); results are truncated with `as u16/u32/u64`.
+   The model is the debug (overflow-checking) build; every overflow site turned
+   out to be unreachable (see the list below) so the release build agrees.
+
+   HashSet<u16> (SMB2 dialects): only insert / len / contains are used, the
+   iteration order is never observed; modelled as a duplicate-free list.
+
+   ------------------------------------------------------------------------
+   WALL CLOCK.  One input [filetime] =
+       (11644473600 + SystemTime::now().duration_since(UNIX_EPOCH).as_secs()) * 10_000_000
+   (u64, smb.rs:368-373 and smb.rs:906-911).  It is computed once per reply, so
+   all clock-derived fields of one reply are equal.  Offsets are byte offsets
+   in the reply payload returned by repl_smb1/repl_smb2 (= TCP/UDP payload,
+   NetBIOS header included: 4 bytes NBT, then 32 bytes SMB1 / 64 bytes SMB2
+   header, then the body):
+     SMB1 Negotiate response      : ServerTime       = bytes  60 ..  67 (le64 filetime)
+     SMB1 Session-Setup response  : (none)
+     SMB2 Negotiate response      : ServerTime       = bytes 108 .. 115 (le64 filetime)
+                                    ServerStartTime  = bytes 116 .. 123 (le64 filetime, same value)
+     SMB2 Session-Setup response  : (none)
+   Reply sizes: SMB1 neg = 4+32+37+16+|neg_blob|, SMB1 setup = 4+32+11+|chal_blob|+48,
+   SMB2 neg = 4+64+64+|neg_blob|, SMB2 setup = 4+64+8+|chal_blob|.
+
+   ------------------------------------------------------------------------
+   PANIC SITES (700-799).  All of them are unreachable from the initial state;
+   they are modelled because it is cheap.
+     700  dissector.rs:55  `byte << (8 * self.i)`: shift amount >= 64
+          (needs i >= 8; i < size <= 8 always, because every state is entered
+          with i = 0 and left when i reaches size)
+     701  dissector.rs:55  `value + (...)`: usize addition overflow (the bytes
+          are accumulated into disjoint bit positions, value < 2^(8*i))
+     703  smb.rs:179  self.start[self.d.i]              (SMB1 header, i >= 4)
+     704  smb.rs:206  self.security_signature[self.d.i] (SMB1 header, i >= 8)
+     705  smb.rs:670  self.start[self.d.i]              (SMB2 header, i >= 4)
+     706  smb.rs:726  self.security_signature[self.d.i] (SMB2 header, i >= 16)
+     707  smb.rs:865  self.client_guid[self.d.i]        (SMB2 negotiate, i >= 16)
+     708  smb.rs:100  ((size as u32 >> 16) & 0xff).try_into().unwrap() (u32 -> u8;
+          the operand is masked with 0xff, and size <= 0x1ffff)
+   NOT modelled (cannot be expressed with these inputs):
+     - smb.rs:371 / smb.rs:910  duration_since(UNIX_EPOCH).unwrap(): clock before 1970
+     - smb.rs:368 / smb.rs:906  (EPOCH_1601 + secs) * 10^7 overflowing u64 (year ~ 56000);
+       the model expects filetime < 2^64 and le64 would wrap like a release build
+     - `self.d.i += 1` (usize) overflow: needs 2^64 input bytes
+     - dissector.rs:52 `(value << 8) + byte` (read_u16): value < 2^16, cannot overflow
+*)
+From MS Require Export Bytes Res Types.
+
+Definition W16 : N := 65536.
+Definition W32 : N := 4294967296.
+Definition W64 : N := 18446744073709551616.
+
+Definition PANIC_SMB_SHL : N := 700.
+Definition PANIC_SMB_ADD : N := 701.
+Definition PANIC_SMB1_START : N := 703.
+Definition PANIC_SMB1_SECSIG : N := 704.
+Definition PANIC_SMB2_START : N := 705.
+Definition PANIC_SMB2_SECSIG : N := 706.
+Definition PANIC_SMB2_GUID : N := 707.
+Definition PANIC_NBT_SIZE : N := 708.
+
+(* ---------- dissector.rs: PacketDissector<T> ---------- *)
+Record dis := { d_i : N; d_st : N }.
+Definition d_new (st : N) : dis := {| d_i := 0; d_st := st |}.
+(* next_state *)
+Definition d_next (st : N) : dis := {| d_i := 0; d_st := st |}.
+(* next_state_when_i_reaches *)
+Definition d_when (d : dis) (st i : N) : dis := if d_i d =? i then d_next st else d.
+(* self.d.i += 1 *)
+Definition d_inc (d : dis) : dis := {| d_i := d_i d + 1; d_st := d_st d |}.
+(* self.d.state = st (i untouched) *)
+Definition d_force (d : dis) (st : N) : dis := {| d_i := d_i d; d_st := st |}.
+
+(* _read_ulesize + the `as uN` of read_ule16/32/64 ([width] = 2^N) *)
+Definition read_ule (d : dis) (b v next size width : N) : res (N * dis) :=
+  let sh := 8 * d_i d in
+  if 64 <=? sh then Panic PANIC_SMB_SHL          (* dissector.rs:55 *)
+  else
+    let r := v + (N.shiftl b sh) mod W64 in
+    if W64 <=? r then Panic PANIC_SMB_ADD         (* dissector.rs:55 *)
+    else Ok (r mod width, d_when (d_inc d) next size).
+Definition read_ule16 d b v next := read_ule d b v next 2 W16.
+Definition read_ule32 d b v next := read_ule d b v next 4 W32.
+Definition read_ule64 d b v next := read_ule d b v next 8 W64.
+
+(* _read_usize + `as u16` (read_u16, big endian; only used for the NBT length) *)
+Definition read_u16 (d : dis) (b v next : N) : N * dis :=
+  (((v * 256) mod W64 + b) mod W16, d_when (d_inc d) next 2).
+
+Definition fold_res {S : Type} (step : S -> N -> res S) (data : bytes) (s : S) : res S :=
+  fold_left (fun acc b => match acc with Ok x => step x b | Panic p => Panic p end) data (Ok s).
+
+(* array store `a[i] = b` for a fixed-size array (index checked by the caller) *)
+Fixpoint set_nth (i : nat) (b : N) (l : bytes) : bytes :=
+  match l, i with
+  | [], _ => []
+  | _ :: t, O => b :: t
+  | x :: t, S k => x :: set_nth k b t
+  end.
+
+(* ====================================================================== *)
+(*                                 SMB1                                   *)
+(* ====================================================================== *)
+
+(* ---------- SMB1NegotiateRequest ---------- *)
+Definition N1_WORDCOUNT : N := 0.
+Definition N1_BYTECOUNT : N := 1.
+Definition N1_DIALECTS : N := 2.
+Definition N1_END : N := 3.
+
+(* [n1_tmp]: _tmp_dialect (Some s: a dialect is being read, s = its characters
+   so far, most recent first; buffer_format is stored by the code but never read).
+   [n1_dialects]: dialect strings in the order pushed. *)
+Record neg1 := {
+  n1_d : dis;
+  n1_tmp : option bytes;
+  n1_wc : N;
+  n1_bc : N;
+  n1_dialects : list bytes
+}.
+Definition set_n1_d (s : neg1) (v : dis) : neg1 :=
+  {| n1_d := v; n1_tmp := n1_tmp s; n1_wc := n1_wc s; n1_bc := n1_bc s; n1_dialects := n1_dialects s |}.
+Definition set_n1_tmp (s : neg1) (v : option bytes) : neg1 :=
+  {| n1_d := n1_d s; n1_tmp := v; n1_wc := n1_wc s; n1_bc := n1_bc s; n1_dialects := n1_dialects s |}.
+Definition set_n1_wc (s : neg1) (v : N) : neg1 :=
+  {| n1_d := n1_d s; n1_tmp := n1_tmp s; n1_wc := v; n1_bc := n1_bc s; n1_dialects := n1_dialects s |}.
+Definition set_n1_bc (s : neg1) (v : N) : neg1 :=
+  {| n1_d := n1_d s; n1_tmp := n1_tmp s; n1_wc := n1_wc s; n1_bc := v; n1_dialects := n1_dialects s |}.
+Definition set_n1_dialects (s : neg1) (v : list bytes) : neg1 :=
+  {| n1_d := n1_d s; n1_tmp := n1_tmp s; n1_wc := n1_wc s; n1_bc := n1_bc s; n1_dialects := v |}.
+
+Definition neg1_new : neg1 :=
+  {| n1_d := d_new N1_WORDCOUNT; n1_tmp := None; n1_wc := 0; n1_bc := 0; n1_dialects := [] |}.
+
+Definition neg1_byte (s : neg1) (b : N) : res neg1 :=
+  let d := n1_d s in
+  let st := d_st d in
+  if st =? N1_WORDCOUNT then Ok (set_n1_d (set_n1_wc s b) (d_next N1_BYTECOUNT))
+  else if st =? N1_BYTECOUNT then
+    do r <- read_ule16 d b (n1_bc s) N1_DIALECTS;
+    Ok (set_n1_d (set_n1_bc s (fst r)) (snd r))
+  else if st =? N1_DIALECTS then
+    let d1 := d_inc d in
+    match n1_tmp s with
+    | Some str =>
+      if b =? 0 then
+        (* the end test is only made when a dialect string terminates *)
+        Ok (set_n1_d (set_n1_tmp (set_n1_dialects s (n1_dialects s ++ [rev str])) None)
+                     (d_when d1 N1_END (n1_bc s)))
+      else Ok (set_n1_d (set_n1_tmp s (Some (b :: str))) d1)
+    | None => Ok (set_n1_d (set_n1_tmp s (Some [])) d1)   (* buffer_format byte *)
+    end
+  else Ok s.
+
+Fixpoint position (x : bytes) (l : list bytes) (k : N) : option N :=
+  match l with
+  | [] => None
+  | y :: t => if bytes_eqb y x then Some k else position x t (k + 1)
+  end.
+
+Definition DIALECT_NTLM012 : bytes := [78; 84; 32; 76; 77; 32; 48; 46; 49; 50].   (* "NT LM 0.12" *)
+Definition DIALECT_SMB2_ANY : bytes := [83; 77; 66; 32; 50; 46; 63; 63; 63].      (* "SMB 2.???" *)
+Definition DIALECT_SMB2_002 : bytes := [83; 77; 66; 32; 50; 46; 48; 48; 50].      (* "SMB 2.002" *)
+
+(* smb.rs:374-389: first of the three names that occurs, index of its first
+   occurrence (`x as u16`); 0 when none occurs *)
+Definition neg1_dialect_index (dl : list bytes) : N :=
+  match position DIALECT_NTLM012 dl 0 with
+  | Some x => wrap16 x
+  | None =>
+    match position DIALECT_SMB2_ANY dl 0 with
+    | Some x => wrap16 x
+    | None =>
+      match position DIALECT_SMB2_002 dl 0 with
+      | Some x => wrap16 x
+      | None => 0
+      end
+    end
+  end.
+
+Definition neg1_repl (neg_blob : bytes) (filetime : N) (s : neg1) : option bytes :=
+  if negb (d_st (n1_d s) =? N1_END) then None
+  else Some (
+    [17] ++                                   (* WordCount *)
+    le16 (neg1_dialect_index (n1_dialects s)) ++
+    [3] ++                                    (* SecurityMode *)
+    le16 50 ++ le16 50 ++                     (* MaxMPXCount, MaxNumberVC *)
+    le32 65536 ++ le32 65536 ++               (* MaxBufferSize, MaxRawSize *)
+    le32 0 ++                                 (* SessionKey *)
+    le32 2147607548 ++                        (* ServerCapabilities 0x8001e3fc *)
+    le64 filetime ++                          (* ServerTime *)
+    le16 60 ++                                (* ServerTimeZone *)
+    [0] ++                                    (* ChallengeLength *)
+    le16 (wrap16 (lenN neg_blob + 16)) ++     (* ByteCount *)
+    zeros 16 ++                               (* GUID *)
+    neg_blob).
+
+(* ---------- SMB1SessionSetupRequest ---------- *)
+Definition S1_WORDCOUNT : N := 0.
+Definition S1_ANDXCOMMAND : N := 1.
+Definition S1_ANDXRESERVED : N := 2.
+Definition S1_ANDXOFFSET : N := 3.
+Definition S1_MAXBUFFERSIZE : N := 4.
+Definition S1_MAXMPXCOUNT : N := 5.
+Definition S1_VCNUMBER : N := 6.
+Definition S1_SESSIONKEY : N := 7.
+Definition S1_SECURITYBLOBLENGTH : N := 8.
+Definition S1_RESERVED : N := 9.
+Definition S1_SERVERCAPABILITIES : N := 10.
+Definition S1_BYTECOUNT : N := 11.
+Definition S1_SECURITYBLOB : N := 12.
+Definition S1_END : N := 13.
+Record setup1 := {
+  s1_d : dis;
+  s1_wc : N;
+  s1_andx_cmd : N;
+  s1_andx_off : N;
+  s1_max_buf : N;
+  s1_max_mpx : N;
+  s1_vc : N;
+  s1_sess_key : N;
+  s1_sec_len : N;
+  s1_caps : N;
+  s1_bc : N
+}.
+Definition set_s1_d (s : setup1) (v : dis) : setup1 :=
+  {| s1_d := v; s1_wc := s1_wc s; s1_andx_cmd := s1_andx_cmd s; s1_andx_off := s1_andx_off s; s1_max_buf := s1_max_buf s; s1_max_mpx := s1_max_mpx s; s1_vc := s1_vc s; s1_sess_key := s1_sess_key s; s1_sec_len := s1_sec_len s; s1_caps := s1_caps s; s1_bc := s1_bc s |}.
+Definition set_s1_wc (s : setup1) (v : N) : setup1 :=
+  {| s1_d := s1_d s; s1_wc := v; s1_andx_cmd := s1_andx_cmd s; s1_andx_off := s1_andx_off s; s1_max_buf := s1_max_buf s; s1_max_mpx := s1_max_mpx s; s1_vc := s1_vc s; s1_sess_key := s1_sess_key s; s1_sec_len := s1_sec_len s; s1_caps := s1_caps s; s1_bc := s1_bc s |}.
+Definition set_s1_andx_cmd (s : setup1) (v : N) : setup1 :=
+  {| s1_d := s1_d s; s1_wc := s1_wc s; s1_andx_cmd := v; s1_andx_off := s1_andx_off s; s1_max_buf := s1_max_buf s; s1_max_mpx := s1_max_mpx s; s1_vc := s1_vc s; s1_sess_key := s1_sess_key s; s1_sec_len := s1_sec_len s; s1_caps := s1_caps s; s1_bc := s1_bc s |}.
+Definition set_s1_andx_off (s : setup1) (v : N) : setup1 :=
+  {| s1_d := s1_d s; s1_wc := s1_wc s; s1_andx_cmd := s1_andx_cmd s; s1_andx_off := v; s1_max_buf := s1_max_buf s; s1_max_mpx := s1_max_mpx s; s1_vc := s1_vc s; s1_sess_key := s1_sess_key s; s1_sec_len := s1_sec_len s; s1_caps := s1_caps s; s1_bc := s1_bc s |}.
+Definition set_s1_max_buf (s : setup1) (v : N) : setup1 :=
+  {| s1_d := s1_d s; s1_wc := s1_wc s; s1_andx_cmd := s1_andx_cmd s; s1_andx_off := s1_andx_off s; s1_max_buf := v; s1_max_mpx := s1_max_mpx s; s1_vc := s1_vc s; s1_sess_key := s1_sess_key s; s1_sec_len := s1_sec_len s; s1_caps := s1_caps s; s1_bc := s1_bc s |}.
+Definition set_s1_max_mpx (s : setup1) (v : N) : setup1 :=
+  {| s1_d := s1_d s; s1_wc := s1_wc s; s1_andx_cmd := s1_andx_cmd s; s1_andx_off := s1_andx_off s; s1_max_buf := s1_max_buf s; s1_max_mpx := v; s1_vc := s1_vc s; s1_sess_key := s1_sess_key s; s1_sec_len := s1_sec_len s; s1_caps := s1_caps s; s1_bc := s1_bc s |}.
+Definition set_s1_vc (s : setup1) (v : N) : setup1 :=
+  {| s1_d := s1_d s; s1_wc := s1_wc s; s1_andx_cmd := s1_andx_cmd s; s1_andx_off := s1_andx_off s; s1_max_buf := s1_max_buf s; s1_max_mpx := s1_max_mpx s; s1_vc := v; s1_sess_key := s1_sess_key s; s1_sec_len := s1_sec_len s; s1_caps := s1_caps s; s1_bc := s1_bc s |}.
+Definition set_s1_sess_key (s : setup1) (v : N) : setup1 :=
+  {| s1_d := s1_d s; s1_wc := s1_wc s; s1_andx_cmd := s1_andx_cmd s; s1_andx_off := s1_andx_off s; s1_max_buf := s1_max_buf s; s1_max_mpx := s1_max_mpx s; s1_vc := s1_vc s; s1_sess_key := v; s1_sec_len := s1_sec_len s; s1_caps := s1_caps s; s1_bc := s1_bc s |}.
+Definition set_s1_sec_len (s : setup1) (v : N) : setup1 :=
+  {| s1_d := s1_d s; s1_wc := s1_wc s; s1_andx_cmd := s1_andx_cmd s; s1_andx_off := s1_andx_off s; s1_max_buf := s1_max_buf s; s1_max_mpx := s1_max_mpx s; s1_vc := s1_vc s; s1_sess_key := s1_sess_key s; s1_sec_len := v; s1_caps := s1_caps s; s1_bc := s1_bc s |}.
+Definition set_s1_caps (s : setup1) (v : N) : setup1 :=
+  {| s1_d := s1_d s; s1_wc := s1_wc s; s1_andx_cmd := s1_andx_cmd s; s1_andx_off := s1_andx_off s; s1_max_buf := s1_max_buf s; s1_max_mpx := s1_max_mpx s; s1_vc := s1_vc s; s1_sess_key := s1_sess_key s; s1_sec_len := s1_sec_len s; s1_caps := v; s1_bc := s1_bc s |}.
+Definition set_s1_bc (s : setup1) (v : N) : setup1 :=
+  {| s1_d := s1_d s; s1_wc := s1_wc s; s1_andx_cmd := s1_andx_cmd s; s1_andx_off := s1_andx_off s; s1_max_buf := s1_max_buf s; s1_max_mpx := s1_max_mpx s; s1_vc := s1_vc s; s1_sess_key := s1_sess_key s; s1_sec_len := s1_sec_len s; s1_caps := s1_caps s; s1_bc := v |}.
+
+Definition setup1_new : setup1 :=
+  {| s1_d := d_new S1_WORDCOUNT; s1_wc := 0; s1_andx_cmd := 0; s1_andx_off := 0; s1_max_buf := 0;
+     s1_max_mpx := 0; s1_vc := 0; s1_sess_key := 0; s1_sec_len := 0; s1_caps := 0; s1_bc := 0 |}.
+
+Definition setup1_byte (s : setup1) (b : N) : res setup1 :=
+  let d := s1_d s in
+  let st := d_st d in
+  if st =? S1_WORDCOUNT then Ok (set_s1_d (set_s1_wc s b) (d_next S1_ANDXCOMMAND))
+  else if st =? S1_ANDXCOMMAND then Ok (set_s1_d (set_s1_andx_cmd s b) (d_next S1_ANDXRESERVED))
+  else if st =? S1_ANDXRESERVED then Ok (set_s1_d s (d_next S1_ANDXOFFSET))
+  else if st =? S1_ANDXOFFSET then
+    do r <- read_ule16 d b (s1_andx_off s) S1_MAXBUFFERSIZE;
+    Ok (set_s1_d (set_s1_andx_off s (fst r)) (snd r))
+  else if st =? S1_MAXBUFFERSIZE then
+    do r <- read_ule16 d b (s1_max_buf s) S1_MAXMPXCOUNT;
+    Ok (set_s1_d (set_s1_max_buf s (fst r)) (snd r))
+  else if st =? S1_MAXMPXCOUNT then
+    do r <- read_ule16 d b (s1_max_mpx s) S1_VCNUMBER;
+    Ok (set_s1_d (set_s1_max_mpx s (fst r)) (snd r))
+  else if st =? S1_VCNUMBER then
+    do r <- read_ule16 d b (s1_vc s) S1_SESSIONKEY;
+    Ok (set_s1_d (set_s1_vc s (fst r)) (snd r))
+  else if st =? S1_SESSIONKEY then
+    do r <- read_ule32 d b (s1_sess_key s) S1_SECURITYBLOBLENGTH;
+    Ok (set_s1_d (set_s1_sess_key s (fst r)) (snd r))
+  else if st =? S1_SECURITYBLOBLENGTH then
+    do r <- read_ule16 d b (s1_sec_len s) S1_RESERVED;
+    Ok (set_s1_d (set_s1_sec_len s (fst r)) (snd r))
+  else if st =? S1_RESERVED then Ok (set_s1_d s (d_when (d_inc d) S1_SERVERCAPABILITIES 4))
+  else if st =? S1_SERVERCAPABILITIES then
+    do r <- read_ule32 d b (s1_caps s) S1_BYTECOUNT;
+    Ok (set_s1_d (set_s1_caps s (fst r)) (snd r))
+  else if st =? S1_BYTECOUNT then
+    do r <- read_ule16 d b (s1_bc s) S1_SECURITYBLOB;
+    Ok (set_s1_d (set_s1_bc s (fst r)) (snd r))
+  else if st =? S1_SECURITYBLOB then
+    (* counts blob bytes against SecurityBlobLength (ByteCount is not used);
+       with SecurityBlobLength = 0 the counter starts at 1 and End is never reached *)
+    Ok (set_s1_d s (d_when (d_inc d) S1_END (s1_sec_len s)))
+  else Ok s.
+
+(* "Windows 4.0" in UTF-16LE + two NUL bytes (24 bytes) *)
+Definition NATIVE_OS : bytes :=
+  [87; 0; 105; 0; 110; 0; 100; 0; 111; 0; 119; 0; 115; 0; 32; 0; 52; 0; 46; 0; 48; 0; 0; 0].
+
+Definition setup1_repl (chal_blob : bytes) (s : setup1) : option bytes :=
+  if negb (d_st (s1_d s) =? S1_END) then None
+  else Some (
+    [4; 255; 0] ++                            (* WordCount, AndXCommand, AndXReserved *)
+    le16 68 ++                                (* AndXOffset 0x44 *)
+    le16 0 ++                                 (* Action *)
+    le16 (wrap16 (lenN chal_blob)) ++         (* SecurityLen *)
+    le16 (wrap16 (lenN chal_blob + lenN NATIVE_OS + lenN NATIVE_OS)) ++   (* ByteCount *)
+    chal_blob ++ NATIVE_OS ++ NATIVE_OS).
+
+(* ---------- SMB1Payload ---------- *)
+Inductive pay1 := P1Neg (n : neg1) | P1Setup (s : setup1).
+
+Definition pay1_byte (p : pay1) (b : N) : res pay1 :=
+  match p with
+  | P1Neg n => do n' <- neg1_byte n b; Ok (P1Neg n')
+  | P1Setup s => do s' <- setup1_byte s b; Ok (P1Setup s')
+  end.
+
+Definition pay1_repl (neg_blob chal_blob : bytes) (filetime : N) (p : pay1) : option bytes :=
+  match p with
+  | P1Neg n => neg1_repl neg_blob filetime n
+  | P1Setup s => setup1_repl chal_blob s
+  end.
+
+(* ---------- SMB1Header ---------- *)
+Definition H1_START : N := 0.
+Definition H1_COMMAND : N := 1.
+Definition H1_STATUS : N := 2.
+Definition H1_FLAGS : N := 3.
+Definition H1_FLAGS2 : N := 4.
+Definition H1_PIDHIGH : N := 5.
+Definition H1_SECURITYSIGNATURE : N := 6.
+Definition H1_RESERVED : N := 7.
+Definition H1_TID : N := 8.
+Definition H1_PIDLOW : N := 9.
+Definition H1_UID : N := 10.
+Definition H1_MID : N := 11.
+Definition H1_END : N := 12.
+
+(* the arrays start[4] and security_signature[8] are written, never read: not kept *)
+Record hdr1 := {
+  h1_d : dis;
+  h1_command : N;
+  h1_status : N;
+  h1_flags : N;
+  h1_flags2 : N;
+  h1_pid_high : N;
+  h1_tid : N;
+  h1_pid_low : N;
+  h1_uid : N;
+  h1_mid : N;
+  h1_pay : option pay1
+}.
+Definition set_h1_d (s : hdr1) (v : dis) : hdr1 :=
+  {| h1_d := v; h1_command := h1_command s; h1_status := h1_status s; h1_flags := h1_flags s; h1_flags2 := h1_flags2 s; h1_pid_high := h1_pid_high s; h1_tid := h1_tid s; h1_pid_low := h1_pid_low s; h1_uid := h1_uid s; h1_mid := h1_mid s; h1_pay := h1_pay s |}.
+Definition set_h1_command (s : hdr1) (v : N) : hdr1 :=
+  {| h1_d := h1_d s; h1_command := v; h1_status := h1_status s; h1_flags := h1_flags s; h1_flags2 := h1_flags2 s; h1_pid_high := h1_pid_high s; h1_tid := h1_tid s; h1_pid_low := h1_pid_low s; h1_uid := h1_uid s; h1_mid := h1_mid s; h1_pay := h1_pay s |}.
+Definition set_h1_status (s : hdr1) (v : N) : hdr1 :=
+  {| h1_d := h1_d s; h1_command := h1_command s; h1_status := v; h1_flags := h1_flags s; h1_flags2 := h1_flags2 s; h1_pid_high := h1_pid_high s; h1_tid := h1_tid s; h1_pid_low := h1_pid_low s; h1_uid := h1_uid s; h1_mid := h1_mid s; h1_pay := h1_pay s |}.
+Definition set_h1_flags (s : hdr1) (v : N) : hdr1 :=
+  {| h1_d := h1_d s; h1_command := h1_command s; h1_status := h1_status s; h1_flags := v; h1_flags2 := h1_flags2 s; h1_pid_high := h1_pid_high s; h1_tid := h1_tid s; h1_pid_low := h1_pid_low s; h1_uid := h1_uid s; h1_mid := h1_mid s; h1_pay := h1_pay s |}.
+Definition set_h1_flags2 (s : hdr1) (v : N) : hdr1 :=
+  {| h1_d := h1_d s; h1_command := h1_command s; h1_status := h1_status s; h1_flags := h1_flags s; h1_flags2 := v; h1_pid_high := h1_pid_high s; h1_tid := h1_tid s; h1_pid_low := h1_pid_low s; h1_uid := h1_uid s; h1_mid := h1_mid s; h1_pay := h1_pay s |}.
+Definition set_h1_pid_high (s : hdr1) (v : N) : hdr1 :=
+  {| h1_d := h1_d s; h1_command := h1_command s; h1_status := h1_status s; h1_flags := h1_flags s; h1_flags2 := h1_flags2 s; h1_pid_high := v; h1_tid := h1_tid s; h1_pid_low := h1_pid_low s; h1_uid := h1_uid s; h1_mid := h1_mid s; h1_pay := h1_pay s |}.
+Definition set_h1_tid (s : hdr1) (v : N) : hdr1 :=
+  {| h1_d := h1_d s; h1_command := h1_command s; h1_status := h1_status s; h1_flags := h1_flags s; h1_flags2 := h1_flags2 s; h1_pid_high := h1_pid_high s; h1_tid := v; h1_pid_low := h1_pid_low s; h1_uid := h1_uid s; h1_mid := h1_mid s; h1_pay := h1_pay s |}.
+Definition set_h1_pid_low (s : hdr1) (v : N) : hdr1 :=
+  {| h1_d := h1_d s; h1_command := h1_command s; h1_status := h1_status s; h1_flags := h1_flags s; h1_flags2 := h1_flags2 s; h1_pid_high := h1_pid_high s; h1_tid := h1_tid s; h1_pid_low := v; h1_uid := h1_uid s; h1_mid := h1_mid s; h1_pay := h1_pay s |}.
+Definition set_h1_uid (s : hdr1) (v : N) : hdr1 :=
+  {| h1_d := h1_d s; h1_command := h1_command s; h1_status := h1_status s; h1_flags := h1_flags s; h1_flags2 := h1_flags2 s; h1_pid_high := h1_pid_high s; h1_tid := h1_tid s; h1_pid_low := h1_pid_low s; h1_uid := v; h1_mid := h1_mid s; h1_pay := h1_pay s |}.
+Definition set_h1_mid (s : hdr1) (v : N) : hdr1 :=
+  {| h1_d := h1_d s; h1_command := h1_command s; h1_status := h1_status s; h1_flags := h1_flags s; h1_flags2 := h1_flags2 s; h1_pid_high := h1_pid_high s; h1_tid := h1_tid s; h1_pid_low := h1_pid_low s; h1_uid := h1_uid s; h1_mid := v; h1_pay := h1_pay s |}.
+Definition set_h1_pay (s : hdr1) (v : option pay1) : hdr1 :=
+  {| h1_d := h1_d s; h1_command := h1_command s; h1_status := h1_status s; h1_flags := h1_flags s; h1_flags2 := h1_flags2 s; h1_pid_high := h1_pid_high s; h1_tid := h1_tid s; h1_pid_low := h1_pid_low s; h1_uid := h1_uid s; h1_mid := h1_mid s; h1_pay := v |}.
+
+Definition hdr1_new : hdr1 :=
+  {| h1_d := d_new H1_START; h1_command := 0; h1_status := 0; h1_flags := 0; h1_flags2 := 0;
+     h1_pid_high := 0; h1_tid := 0; h1_pid_low := 0; h1_uid := 0; h1_mid := 0; h1_pay := None |}.
+
+(* SMB1Header::get_payload followed by pay.parse(byte) *)
+Definition hdr1_payload_byte (s : hdr1) (b : N) : res hdr1 :=
+  match h1_pay s with
+  | Some p => do p' <- pay1_byte p b; Ok (set_h1_pay s (Some p'))
+  | None =>
+    if N.land (h1_flags s) 128 =? 128 then Ok s           (* response: ignored *)
+    else if h1_command s =? 114 then                      (* 0x72 Negotiate *)
+      do p' <- pay1_byte (P1Neg neg1_new) b; Ok (set_h1_pay s (Some p'))
+    else if h1_command s =? 115 then                      (* 0x73 Session Setup AndX *)
+      do p' <- pay1_byte (P1Setup setup1_new) b; Ok (set_h1_pay s (Some p'))
+    else Ok s
+  end.
+
+Definition hdr1_byte (s : hdr1) (b : N) : res hdr1 :=
+  let d := h1_d s in
+  let st := d_st d in
+  if st =? H1_START then
+    if 4 <=? d_i d then Panic PANIC_SMB1_START                     (* smb.rs:179 *)
+    else Ok (set_h1_d s (d_when (d_inc d) H1_COMMAND 4))
+  else if st =? H1_COMMAND then Ok (set_h1_d (set_h1_command s b) (d_next H1_STATUS))
+  else if st =? H1_STATUS then
+    do r <- read_ule32 d b (h1_status s) H1_FLAGS;
+    Ok (set_h1_d (set_h1_status s (fst r)) (snd r))
+  else if st =? H1_FLAGS then Ok (set_h1_d (set_h1_flags s b) (d_next H1_FLAGS2))
+  else if st =? H1_FLAGS2 then
+    do r <- read_ule16 d b (h1_flags2 s) H1_PIDHIGH;
+    Ok (set_h1_d (set_h1_flags2 s (fst r)) (snd r))
+  else if st =? H1_PIDHIGH then
+    do r <- read_ule16 d b (h1_pid_high s) H1_SECURITYSIGNATURE;
+    Ok (set_h1_d (set_h1_pid_high s (fst r)) (snd r))
+  else if st =? H1_SECURITYSIGNATURE then
+    if 8 <=? d_i d then Panic PANIC_SMB1_SECSIG                    (* smb.rs:206 *)
+    else Ok (set_h1_d s (d_when (d_inc d) H1_RESERVED 8))
+  else if st =? H1_RESERVED then Ok (set_h1_d s (d_when (d_inc d) H1_TID 2))
+  else if st =? H1_TID then
+    do r <- read_ule16 d b (h1_tid s) H1_PIDLOW;
+    Ok (set_h1_d (set_h1_tid s (fst r)) (snd r))
+  else if st =? H1_PIDLOW then
+    do r <- read_ule16 d b (h1_pid_low s) H1_UID;
+    Ok (set_h1_d (set_h1_pid_low s (fst r)) (snd r))
+  else if st =? H1_UID then
+    do r <- read_ule16 d b (h1_uid s) H1_MID;
+    Ok (set_h1_d (set_h1_uid s (fst r)) (snd r))
+  else if st =? H1_MID then
+    do r <- read_ule16 d b (h1_mid s) H1_END;
+    Ok (set_h1_d (set_h1_mid s (fst r)) (snd r))
+  else hdr1_payload_byte s b.
+
+Definition SMB1_MAGIC : bytes := [255; 83; 77; 66].
+
+Definition hdr1_repl (neg_blob chal_blob : bytes) (filetime : N) (s : hdr1) : option bytes :=
+  match h1_pay s with
+  | None => None
+  | Some p =>
+    match pay1_repl neg_blob chal_blob filetime p with
+    | None => None
+    | Some body =>
+      Some (SMB1_MAGIC ++ [h1_command s] ++ le32 0 ++
+            [152] ++                           (* Flags 0x98 (reply bit set) *)
+            le16 51207 ++                      (* Flags2 0xc807 *)
+            le16 (h1_pid_high s) ++ zeros 8 ++ zeros 2 ++
+            le16 (h1_tid s) ++ le16 (h1_pid_low s) ++ le16 (h1_uid s) ++ le16 (h1_mid s) ++
+            body)
+    end
+  end.
+
+(* ====================================================================== *)
+(*                                 SMB2                                   *)
+(* ====================================================================== *)
+
+(* ---------- SMB2NegotiateRequest ---------- *)
+Definition N2_STRUCTURESIZE : N := 0.
+Definition N2_DIALECTCOUNT : N := 1.
+Definition N2_SECURITYMODE : N := 2.
+Definition N2_RESERVED : N := 3.
+Definition N2_CAPABILITIES : N := 4.
+Definition N2_CLIENTGUID : N := 5.
+Definition N2_NEGOTIATEANDRESERVED2 : N := 6.
+Definition N2_DIALECTS : N := 7.
+Definition N2_END : N := 8.
+
+(* [n2_dialects]: the HashSet<u16>, as a duplicate-free list (insertion order,
+   which is not observable) *)
+Record neg2 := {
+  n2_d : dis;
+  n2_tmp : N;
+  n2_structure_size : N;
+  n2_dialect_count : N;
+  n2_security_mode : N;
+  n2_capabilities : N;
+  n2_client_guid : bytes;
+  n2_dialects : list N
+}.
+Definition set_n2_d (s : neg2) (v : dis) : neg2 :=
+  {| n2_d := v; n2_tmp := n2_tmp s; n2_structure_size := n2_structure_size s; n2_dialect_count := n2_dialect_count s; n2_security_mode := n2_security_mode s; n2_capabilities := n2_capabilities s; n2_client_guid := n2_client_guid s; n2_dialects := n2_dialects s |}.
+Definition set_n2_tmp (s : neg2) (v : N) : neg2 :=
+  {| n2_d := n2_d s; n2_tmp := v; n2_structure_size := n2_structure_size s; n2_dialect_count := n2_dialect_count s; n2_security_mode := n2_security_mode s; n2_capabilities := n2_capabilities s; n2_client_guid := n2_client_guid s; n2_dialects := n2_dialects s |}.
+Definition set_n2_structure_size (s : neg2) (v : N) : neg2 :=
+  {| n2_d := n2_d s; n2_tmp := n2_tmp s; n2_structure_size := v; n2_dialect_count := n2_dialect_count s; n2_security_mode := n2_security_mode s; n2_capabilities := n2_capabilities s; n2_client_guid := n2_client_guid s; n2_dialects := n2_dialects s |}.
+Definition set_n2_dialect_count (s : neg2) (v : N) : neg2 :=
+  {| n2_d := n2_d s; n2_tmp := n2_tmp s; n2_structure_size := n2_structure_size s; n2_dialect_count := v; n2_security_mode := n2_security_mode s; n2_capabilities := n2_capabilities s; n2_client_guid := n2_client_guid s; n2_dialects := n2_dialects s |}.
+Definition set_n2_security_mode (s : neg2) (v : N) : neg2 :=
+  {| n2_d := n2_d s; n2_tmp := n2_tmp s; n2_structure_size := n2_structure_size s; n2_dialect_count := n2_dialect_count s; n2_security_mode := v; n2_capabilities := n2_capabilities s; n2_client_guid := n2_client_guid s; n2_dialects := n2_dialects s |}.
+Definition set_n2_capabilities (s : neg2) (v : N) : neg2 :=
+  {| n2_d := n2_d s; n2_tmp := n2_tmp s; n2_structure_size := n2_structure_size s; n2_dialect_count := n2_dialect_count s; n2_security_mode := n2_security_mode s; n2_capabilities := v; n2_client_guid := n2_client_guid s; n2_dialects := n2_dialects s |}.
+Definition set_n2_client_guid (s : neg2) (v : bytes) : neg2 :=
+  {| n2_d := n2_d s; n2_tmp := n2_tmp s; n2_structure_size := n2_structure_size s; n2_dialect_count := n2_dialect_count s; n2_security_mode := n2_security_mode s; n2_capabilities := n2_capabilities s; n2_client_guid := v; n2_dialects := n2_dialects s |}.
+Definition set_n2_dialects (s : neg2) (v : list N) : neg2 :=
+  {| n2_d := n2_d s; n2_tmp := n2_tmp s; n2_structure_size := n2_structure_size s; n2_dialect_count := n2_dialect_count s; n2_security_mode := n2_security_mode s; n2_capabilities := n2_capabilities s; n2_client_guid := n2_client_guid s; n2_dialects := v |}.
+
+Definition neg2_new : neg2 :=
+  {| n2_d := d_new N2_STRUCTURESIZE; n2_tmp := 0; n2_structure_size := 0; n2_dialect_count := 0;
+     n2_security_mode := 0; n2_capabilities := 0; n2_client_guid := zeros 16; n2_dialects := [] |}.
+
+Definition set_mem (x : N) (l : list N) : bool := existsb (N.eqb x) l.
+Definition set_insert (x : N) (l : list N) : list N := if set_mem x l then l else l ++ [x].
+
+Definition neg2_byte (s : neg2) (b : N) : res neg2 :=
+  let d := n2_d s in
+  let st := d_st d in
+  if st =? N2_STRUCTURESIZE then
+    do r <- read_ule16 d b (n2_structure_size s) N2_DIALECTCOUNT;
+    Ok (set_n2_d (set_n2_structure_size s (fst r)) (snd r))
+  else if st =? N2_DIALECTCOUNT then
+    do r <- read_ule16 d b (n2_dialect_count s) N2_SECURITYMODE;
+    Ok (set_n2_d (set_n2_dialect_count s (fst r)) (snd r))
+  else if st =? N2_SECURITYMODE then
+    do r <- read_ule16 d b (n2_security_mode s) N2_RESERVED;
+    Ok (set_n2_d (set_n2_security_mode s (fst r)) (snd r))
+  else if st =? N2_RESERVED then Ok (set_n2_d s (d_when (d_inc d) N2_CAPABILITIES 2))
+  else if st =? N2_CAPABILITIES then
+    do r <- read_ule32 d b (n2_capabilities s) N2_CLIENTGUID;
+    Ok (set_n2_d (set_n2_capabilities s (fst r)) (snd r))
+  else if st =? N2_CLIENTGUID then
+    if 16 <=? d_i d then Panic PANIC_SMB2_GUID                     (* smb.rs:865 *)
+    else Ok (set_n2_d (set_n2_client_guid s (set_nth (N.to_nat (d_i d)) b (n2_client_guid s)))
+                      (d_when (d_inc d) N2_NEGOTIATEANDRESERVED2 16))
+  else if st =? N2_NEGOTIATEANDRESERVED2 then Ok (set_n2_d s (d_when (d_inc d) N2_DIALECTS 8))
+  else if st =? N2_DIALECTS then
+    do r <- read_ule16 d b (n2_tmp s) N2_DIALECTS;
+    let '(v, d1) := r in
+    if d_i d1 =? 0 then
+      (* a 2-byte dialect is complete: insert; the list is finished when the
+         number of DISTINCT dialects seen equals DialectCount (smb.rs:886) *)
+      let ds := set_insert v (n2_dialects s) in
+      let d2 := if lenN ds =? n2_dialect_count s then d_force d1 N2_END else d1 in
+      Ok (set_n2_d (set_n2_tmp (set_n2_dialects s ds) 0) d2)
+    else Ok (set_n2_d (set_n2_tmp s v) d1)
+  else Ok s.
+
+(* smb.rs:913-930: first entry of the server's list that the client offered *)
+Definition SMB2_VERSIONS : list N := [514; 528; 767; 768; 770; 784; 785].
+   (* 0x0202 0x0210 0x02ff 0x0300 0x0302 0x0310 0x0311 *)
+
+Definition neg2_pick (ds : list N) : option N :=
+  find (fun v => set_mem v ds) SMB2_VERSIONS.
+
+Definition neg2_repl (neg_blob : bytes) (filetime : N) (s : neg2) : option bytes :=
+  if negb (d_st (n2_d s) =? N2_END) then None
+  else
+    match neg2_pick (n2_dialects s) with
+    | None => None                             (* `dialect?` *)
+    | Some dialect =>
+      Some (
+        le16 65 ++                             (* StructureSize 0x41 *)
+        le16 1 ++                              (* SecurityMode *)
+        le16 dialect ++                        (* DialectRevision *)
+        le16 1 ++                              (* NegotiateCount *)
+        n2_client_guid s ++                    (* GUID: the CLIENT's guid is echoed *)
+        le32 1 ++                              (* Capabilities *)
+        le32 65536 ++ le32 65536 ++ le32 65536 ++   (* MaxTransact/Read/WriteSize *)
+        le64 filetime ++                       (* ServerTime *)
+        le64 filetime ++                       (* ServerStartTime *)
+        le16 128 ++                            (* SecurityBufferOffset 0x80 *)
+        le16 (wrap16 (lenN neg_blob)) ++       (* SecurityBufferLength *)
+        le32 0 ++                              (* NegotiateContextOffset *)
+        neg_blob)
+    end.
+
+(* ---------- SMB2SessionSetupRequest ---------- *)
+Definition S2_STRUCTURESIZE : N := 0.
+Definition S2_FLAGS : N := 1.
+Definition S2_SECURITYMODE : N := 2.
+Definition S2_CAPABILITIES : N := 3.
+Definition S2_CHANNEL : N := 4.
+Definition S2_SECURITYBUFFEROFFSET : N := 5.
+Definition S2_SECURITYLEN : N := 6.
+Definition S2_PREVIOUSSESSIONID : N := 7.
+Definition S2_SECURITYBLOB : N := 8.
+Definition S2_END : N := 9.
+Record setup2 := {
+  s2_d : dis;
+  s2_structure_size : N;
+  s2_flags : N;
+  s2_security_mode : N;
+  s2_capabilities : N;
+  s2_channel : N;
+  s2_sec_off : N;
+  s2_sec_len : N;
+  s2_prev_session : N
+}.
+Definition set_s2_d (s : setup2) (v : dis) : setup2 :=
+  {| s2_d := v; s2_structure_size := s2_structure_size s; s2_flags := s2_flags s; s2_security_mode := s2_security_mode s; s2_capabilities := s2_capabilities s; s2_channel := s2_channel s; s2_sec_off := s2_sec_off s; s2_sec_len := s2_sec_len s; s2_prev_session := s2_prev_session s |}.
+Definition set_s2_structure_size (s : setup2) (v : N) : setup2 :=
+  {| s2_d := s2_d s; s2_structure_size := v; s2_flags := s2_flags s; s2_security_mode := s2_security_mode s; s2_capabilities := s2_capabilities s; s2_channel := s2_channel s; s2_sec_off := s2_sec_off s; s2_sec_len := s2_sec_len s; s2_prev_session := s2_prev_session s |}.
+Definition set_s2_flags (s : setup2) (v : N) : setup2 :=
+  {| s2_d := s2_d s; s2_structure_size := s2_structure_size s; s2_flags := v; s2_security_mode := s2_security_mode s; s2_capabilities := s2_capabilities s; s2_channel := s2_channel s; s2_sec_off := s2_sec_off s; s2_sec_len := s2_sec_len s; s2_prev_session := s2_prev_session s |}.
+Definition set_s2_security_mode (s : setup2) (v : N) : setup2 :=
+  {| s2_d := s2_d s; s2_structure_size := s2_structure_size s; s2_flags := s2_flags s; s2_security_mode := v; s2_capabilities := s2_capabilities s; s2_channel := s2_channel s; s2_sec_off := s2_sec_off s; s2_sec_len := s2_sec_len s; s2_prev_session := s2_prev_session s |}.
+Definition set_s2_capabilities (s : setup2) (v : N) : setup2 :=
+  {| s2_d := s2_d s; s2_structure_size := s2_structure_size s; s2_flags := s2_flags s; s2_security_mode := s2_security_mode s; s2_capabilities := v; s2_channel := s2_channel s; s2_sec_off := s2_sec_off s; s2_sec_len := s2_sec_len s; s2_prev_session := s2_prev_session s |}.
+Definition set_s2_channel (s : setup2) (v : N) : setup2 :=
+  {| s2_d := s2_d s; s2_structure_size := s2_structure_size s; s2_flags := s2_flags s; s2_security_mode := s2_security_mode s; s2_capabilities := s2_capabilities s; s2_channel := v; s2_sec_off := s2_sec_off s; s2_sec_len := s2_sec_len s; s2_prev_session := s2_prev_session s |}.
+Definition set_s2_sec_off (s : setup2) (v : N) : setup2 :=
+  {| s2_d := s2_d s; s2_structure_size := s2_structure_size s; s2_flags := s2_flags s; s2_security_mode := s2_security_mode s; s2_capabilities := s2_capabilities s; s2_channel := s2_channel s; s2_sec_off := v; s2_sec_len := s2_sec_len s; s2_prev_session := s2_prev_session s |}.
+Definition set_s2_sec_len (s : setup2) (v : N) : setup2 :=
+  {| s2_d := s2_d s; s2_structure_size := s2_structure_size s; s2_flags := s2_flags s; s2_security_mode := s2_security_mode s; s2_capabilities := s2_capabilities s; s2_channel := s2_channel s; s2_sec_off := s2_sec_off s; s2_sec_len := v; s2_prev_session := s2_prev_session s |}.
+Definition set_s2_prev_session (s : setup2) (v : N) : setup2 :=
+  {| s2_d := s2_d s; s2_structure_size := s2_structure_size s; s2_flags := s2_flags s; s2_security_mode := s2_security_mode s; s2_capabilities := s2_capabilities s; s2_channel := s2_channel s; s2_sec_off := s2_sec_off s; s2_sec_len := s2_sec_len s; s2_prev_session := v |}.
+
+Definition setup2_new : setup2 :=
+  {| s2_d := d_new S2_STRUCTURESIZE; s2_structure_size := 0; s2_flags := 0; s2_security_mode := 0;
+     s2_capabilities := 0; s2_channel := 0; s2_sec_off := 0; s2_sec_len := 0; s2_prev_session := 0 |}.
+
+Definition setup2_byte (s : setup2) (b : N) : res setup2 :=
+  let d := s2_d s in
+  let st := d_st d in
+  if st =? S2_STRUCTURESIZE then
+    do r <- read_ule16 d b (s2_structure_size s) S2_FLAGS;
+    Ok (set_s2_d (set_s2_structure_size s (fst r)) (snd r))
+  else if st =? S2_FLAGS then Ok (set_s2_d (set_s2_flags s b) (d_next S2_SECURITYMODE))
+  else if st =? S2_SECURITYMODE then Ok (set_s2_d (set_s2_security_mode s b) (d_next S2_CAPABILITIES))
+  else if st =? S2_CAPABILITIES then
+    do r <- read_ule32 d b (s2_capabilities s) S2_CHANNEL;
+    Ok (set_s2_d (set_s2_capabilities s (fst r)) (snd r))
+  else if st =? S2_CHANNEL then
+    do r <- read_ule32 d b (s2_channel s) S2_SECURITYBUFFEROFFSET;
+    Ok (set_s2_d (set_s2_channel s (fst r)) (snd r))
+  else if st =? S2_SECURITYBUFFEROFFSET then
+    do r <- read_ule16 d b (s2_sec_off s) S2_SECURITYLEN;
+    Ok (set_s2_d (set_s2_sec_off s (fst r)) (snd r))
+  else if st =? S2_SECURITYLEN then
+    do r <- read_ule16 d b (s2_sec_len s) S2_PREVIOUSSESSIONID;
+    Ok (set_s2_d (set_s2_sec_len s (fst r)) (snd r))
+  else if st =? S2_PREVIOUSSESSIONID then
+    do r <- read_ule64 d b (s2_prev_session s) S2_SECURITYBLOB;
+    Ok (set_s2_d (set_s2_prev_session s (fst r)) (snd r))
+  else if st =? S2_SECURITYBLOB then
+    (* the blob is taken to start right after PreviousSessionId (SecurityBufferOffset
+       is not used); with SecurityBufferLength = 0 End is never reached *)
+    Ok (set_s2_d s (d_when (d_inc d) S2_END (s2_sec_len s)))
+  else Ok s.
+
+Definition setup2_repl (chal_blob : bytes) (s : setup2) : option bytes :=
+  if negb (d_st (s2_d s) =? S2_END) then None
+  else Some (
+    le16 9 ++                                  (* StructureSize *)
+    le16 0 ++                                  (* SessionFlags *)
+    le16 72 ++                                 (* SecurityBufferOffset 0x48 *)
+    le16 (wrap16 (lenN chal_blob)) ++          (* SecurityBufferLength *)
+    chal_blob).
+
+(* ---------- SMB2Payload ---------- *)
+Inductive pay2 := P2Neg (n : neg2) | P2Setup (s : setup2).
+
+Definition pay2_byte (p : pay2) (b : N) : res pay2 :=
+  match p with
+  | P2Neg n => do n' <- neg2_byte n b; Ok (P2Neg n')
+  | P2Setup s => do s' <- setup2_byte s b; Ok (P2Setup s')
+  end.
+
+Definition pay2_repl (neg_blob chal_blob : bytes) (filetime : N) (p : pay2) : option bytes :=
+  match p with
+  | P2Neg n => neg2_repl neg_blob filetime n
+  | P2Setup s => setup2_repl chal_blob s
+  end.
+
+(* ---------- SMB2Header ---------- *)
+Definition H2_START : N := 0.
+Definition H2_STRUCTURESIZE : N := 1.
+Definition H2_CREDITSCHARGE : N := 2.
+Definition H2_STATUS : N := 3.
+Definition H2_COMMAND : N := 4.
+Definition H2_CREDITSREQUESTED : N := 5.
+Definition H2_FLAGS : N := 6.
+Definition H2_NEXTCOMMAND : N := 7.
+Definition H2_MESSAGEID : N := 8.
+Definition H2_ASYNCID : N := 9.
+Definition H2_SESSIONID : N := 10.
+Definition H2_SECURITYSIGNATURE : N := 11.
+Definition H2_END : N := 12.
+
+(* the arrays start[4] and security_signature[16] are written, never read: not kept *)
+Record hdr2 := {
+  h2_d : dis;
+  h2_structure_size : N;
+  h2_credit_charge : N;
+  h2_status : N;
+  h2_command : N;
+  h2_credits_requested : N;
+  h2_flags : N;
+  h2_next_command : N;
+  h2_message_id : N;
+  h2_async_id : N;
+  h2_session_id : N;
+  h2_pay : option pay2
+}.
+Definition set_h2_d (s : hdr2) (v : dis) : hdr2 :=
+  {| h2_d := v; h2_structure_size := h2_structure_size s; h2_credit_charge := h2_credit_charge s; h2_status := h2_status s; h2_command := h2_command s; h2_credits_requested := h2_credits_requested s; h2_flags := h2_flags s; h2_next_command := h2_next_command s; h2_message_id := h2_message_id s; h2_async_id := h2_async_id s; h2_session_id := h2_session_id s; h2_pay := h2_pay s |}.
+Definition set_h2_structure_size (s : hdr2) (v : N) : hdr2 :=
+  {| h2_d := h2_d s; h2_structure_size := v; h2_credit_charge := h2_credit_charge s; h2_status := h2_status s; h2_command := h2_command s; h2_credits_requested := h2_credits_requested s; h2_flags := h2_flags s; h2_next_command := h2_next_command s; h2_message_id := h2_message_id s; h2_async_id := h2_async_id s; h2_session_id := h2_session_id s; h2_pay := h2_pay s |}.
+Definition set_h2_credit_charge (s : hdr2) (v : N) : hdr2 :=
+  {| h2_d := h2_d s; h2_structure_size := h2_structure_size s; h2_credit_charge := v; h2_status := h2_status s; h2_command := h2_command s; h2_credits_requested := h2_credits_requested s; h2_flags := h2_flags s; h2_next_command := h2_next_command s; h2_message_id := h2_message_id s; h2_async_id := h2_async_id s; h2_session_id := h2_session_id s; h2_pay := h2_pay s |}.
+Definition set_h2_status (s : hdr2) (v : N) : hdr2 :=
+  {| h2_d := h2_d s; h2_structure_size := h2_structure_size s; h2_credit_charge := h2_credit_charge s; h2_status := v; h2_command := h2_command s; h2_credits_requested := h2_credits_requested s; h2_flags := h2_flags s; h2_next_command := h2_next_command s; h2_message_id := h2_message_id s; h2_async_id := h2_async_id s; h2_session_id := h2_session_id s; h2_pay := h2_pay s |}.
+Definition set_h2_command (s : hdr2) (v : N) : hdr2 :=
+  {| h2_d := h2_d s; h2_structure_size := h2_structure_size s; h2_credit_charge := h2_credit_charge s; h2_status := h2_status s; h2_command := v; h2_credits_requested := h2_credits_requested s; h2_flags := h2_flags s; h2_next_command := h2_next_command s; h2_message_id := h2_message_id s; h2_async_id := h2_async_id s; h2_session_id := h2_session_id s; h2_pay := h2_pay s |}.
+Definition set_h2_credits_requested (s : hdr2) (v : N) : hdr2 :=
+  {| h2_d := h2_d s; h2_structure_size := h2_structure_size s; h2_credit_charge := h2_credit_charge s; h2_status := h2_status s; h2_command := h2_command s; h2_credits_requested := v; h2_flags := h2_flags s; h2_next_command := h2_next_command s; h2_message_id := h2_message_id s; h2_async_id := h2_async_id s; h2_session_id := h2_session_id s; h2_pay := h2_pay s |}.
+Definition set_h2_flags (s : hdr2) (v : N) : hdr2 :=
+  {| h2_d := h2_d s; h2_structure_size := h2_structure_size s; h2_credit_charge := h2_credit_charge s; h2_status := h2_status s; h2_command := h2_command s; h2_credits_requested := h2_credits_requested s; h2_flags := v; h2_next_command := h2_next_command s; h2_message_id := h2_message_id s; h2_async_id := h2_async_id s; h2_session_id := h2_session_id s; h2_pay := h2_pay s |}.
+Definition set_h2_next_command (s : hdr2) (v : N) : hdr2 :=
+  {| h2_d := h2_d s; h2_structure_size := h2_structure_size s; h2_credit_charge := h2_credit_charge s; h2_status := h2_status s; h2_command := h2_command s; h2_credits_requested := h2_credits_requested s; h2_flags := h2_flags s; h2_next_command := v; h2_message_id := h2_message_id s; h2_async_id := h2_async_id s; h2_session_id := h2_session_id s; h2_pay := h2_pay s |}.
+Definition set_h2_message_id (s : hdr2) (v : N) : hdr2 :=
+  {| h2_d := h2_d s; h2_structure_size := h2_structure_size s; h2_credit_charge := h2_credit_charge s; h2_status := h2_status s; h2_command := h2_command s; h2_credits_requested := h2_credits_requested s; h2_flags := h2_flags s; h2_next_command := h2_next_command s; h2_message_id := v; h2_async_id := h2_async_id s; h2_session_id := h2_session_id s; h2_pay := h2_pay s |}.
+Definition set_h2_async_id (s : hdr2) (v : N) : hdr2 :=
+  {| h2_d := h2_d s; h2_structure_size := h2_structure_size s; h2_credit_charge := h2_credit_charge s; h2_status := h2_status s; h2_command := h2_command s; h2_credits_requested := h2_credits_requested s; h2_flags := h2_flags s; h2_next_command := h2_next_command s; h2_message_id := h2_message_id s; h2_async_id := v; h2_session_id := h2_session_id s; h2_pay := h2_pay s |}.
+Definition set_h2_session_id (s : hdr2) (v : N) : hdr2 :=
+  {| h2_d := h2_d s; h2_structure_size := h2_structure_size s; h2_credit_charge := h2_credit_charge s; h2_status := h2_status s; h2_command := h2_command s; h2_credits_requested := h2_credits_requested s; h2_flags := h2_flags s; h2_next_command := h2_next_command s; h2_message_id := h2_message_id s; h2_async_id := h2_async_id s; h2_session_id := v; h2_pay := h2_pay s |}.
+Definition set_h2_pay (s : hdr2) (v : option pay2) : hdr2 :=
+  {| h2_d := h2_d s; h2_structure_size := h2_structure_size s; h2_credit_charge := h2_credit_charge s; h2_status := h2_status s; h2_command := h2_command s; h2_credits_requested := h2_credits_requested s; h2_flags := h2_flags s; h2_next_command := h2_next_command s; h2_message_id := h2_message_id s; h2_async_id := h2_async_id s; h2_session_id := h2_session_id s; h2_pay := v |}.
+
+Definition hdr2_new : hdr2 :=
+  {| h2_d := d_new H2_START; h2_structure_size := 0; h2_credit_charge := 0; h2_status := 0;
+     h2_command := 0; h2_credits_requested := 0; h2_flags := 0; h2_next_command := 0;
+     h2_message_id := 0; h2_async_id := 0; h2_session_id := 0; h2_pay := None |}.
+
+(* SMB2Header::get_payload followed by pay.parse(byte) *)
+Definition hdr2_payload_byte (s : hdr2) (b : N) : res hdr2 :=
+  match h2_pay s with
+  | Some p => do p' <- pay2_byte p b; Ok (set_h2_pay s (Some p'))
+  | None =>
+    if N.land (h2_flags s) 1 =? 1 then Ok s               (* SMB2_FLAGS_SERVER_TO_REDIR: ignored *)
+    else if h2_command s =? 0 then
+      do p' <- pay2_byte (P2Neg neg2_new) b; Ok (set_h2_pay s (Some p'))
+    else if h2_command s =? 1 then
+      do p' <- pay2_byte (P2Setup setup2_new) b; Ok (set_h2_pay s (Some p'))
+    else Ok s
+  end.
+
+Definition hdr2_byte (s : hdr2) (b : N) : res hdr2 :=
+  let d := h2_d s in
+  let st := d_st d in
+  if st =? H2_START then
+    if 4 <=? d_i d then Panic PANIC_SMB2_START                     (* smb.rs:670 *)
+    else Ok (set_h2_d s (d_when (d_inc d) H2_STRUCTURESIZE 4))
+  else if st =? H2_STRUCTURESIZE then
+    do r <- read_ule16 d b (h2_structure_size s) H2_CREDITSCHARGE;
+    Ok (set_h2_d (set_h2_structure_size s (fst r)) (snd r))
+  else if st =? H2_CREDITSCHARGE then
+    do r <- read_ule16 d b (h2_credit_charge s) H2_STATUS;
+    Ok (set_h2_d (set_h2_credit_charge s (fst r)) (snd r))
+  else if st =? H2_STATUS then
+    do r <- read_ule32 d b (h2_status s) H2_COMMAND;
+    Ok (set_h2_d (set_h2_status s (fst r)) (snd r))
+  else if st =? H2_COMMAND then
+    do r <- read_ule16 d b (h2_command s) H2_CREDITSREQUESTED;
+    Ok (set_h2_d (set_h2_command s (fst r)) (snd r))
+  else if st =? H2_CREDITSREQUESTED then
+    do r <- read_ule16 d b (h2_credits_requested s) H2_FLAGS;
+    Ok (set_h2_d (set_h2_credits_requested s (fst r)) (snd r))
+  else if st =? H2_FLAGS then
+    do r <- read_ule32 d b (h2_flags s) H2_NEXTCOMMAND;
+    Ok (set_h2_d (set_h2_flags s (fst r)) (snd r))
+  else if st =? H2_NEXTCOMMAND then
+    do r <- read_ule32 d b (h2_next_command s) H2_MESSAGEID;
+    Ok (set_h2_d (set_h2_next_command s (fst r)) (snd r))
+  else if st =? H2_MESSAGEID then
+    do r <- read_ule64 d b (h2_message_id s) H2_ASYNCID;
+    Ok (set_h2_d (set_h2_message_id s (fst r)) (snd r))
+  else if st =? H2_ASYNCID then
+    do r <- read_ule64 d b (h2_async_id s) H2_SESSIONID;
+    Ok (set_h2_d (set_h2_async_id s (fst r)) (snd r))
+  else if st =? H2_SESSIONID then
+    do r <- read_ule64 d b (h2_session_id s) H2_SECURITYSIGNATURE;
+    Ok (set_h2_d (set_h2_session_id s (fst r)) (snd r))
+  else if st =? H2_SECURITYSIGNATURE then
+    if 16 <=? d_i d then Panic PANIC_SMB2_SECSIG                   (* smb.rs:726 *)
+    else Ok (set_h2_d s (d_when (d_inc d) H2_END 16))
+  else hdr2_payload_byte s b.
+
+Definition SMB2_MAGIC : bytes := [254; 83; 77; 66].
+
+Definition hdr2_repl (neg_blob chal_blob : bytes) (filetime : N) (s : hdr2) : option bytes :=
+  match h2_pay s with
+  | None => None
+  | Some p =>
+    match pay2_repl neg_blob chal_blob filetime p with
+    | None => None
+    | Some body =>
+      Some (SMB2_MAGIC ++
+            le16 64 ++                         (* StructureSize *)
+            le16 0 ++                          (* CreditCharge *)
+            le32 0 ++                          (* Status *)
+            le16 (h2_command s) ++
+            le16 1 ++                          (* Credits granted *)
+            le32 1 ++                          (* Flags = response *)
+            le32 0 ++                          (* NextCommand *)
+            le64 (h2_message_id s) ++ le64 (h2_async_id s) ++ le64 (h2_session_id s) ++
+            zeros 16 ++                        (* Signature *)
+            body)
+    end
+  end.
+
+(* ====================================================================== *)
+(*                     NBTSession<T> (generic in T)                       *)
+(* ====================================================================== *)
+Definition NB_TYPE : N := 0.
+Definition NB_RESERVED : N := 1.
+Definition NB_LENGTH : N := 2.
+Definition NB_END : N := 3.
+
+Section NBT.
+Variable T : Type.
+Variable t_new : T.
+Variable t_byte : T -> N -> res T.
+Variable t_repl : T -> option bytes.
+Record nbt := {
+  nb_d : dis;
+  nb_type : N;
+  nb_len : N;
+  nb_pay : option T
+}.
+Definition set_nb_d (s : nbt) (v : dis) : nbt :=
+  {| nb_d := v; nb_type := nb_type s; nb_len := nb_len s; nb_pay := nb_pay s |}.
+Definition set_nb_type (s : nbt) (v : N) : nbt :=
+  {| nb_d := nb_d s; nb_type := v; nb_len := nb_len s; nb_pay := nb_pay s |}.
+Definition set_nb_len (s : nbt) (v : N) : nbt :=
+  {| nb_d := nb_d s; nb_type := nb_type s; nb_len := v; nb_pay := nb_pay s |}.
+Definition set_nb_pay (s : nbt) (v : option T) : nbt :=
+  {| nb_d := nb_d s; nb_type := nb_type s; nb_len := nb_len s; nb_pay := v |}.
+
+Definition nbt_new : nbt :=
+  {| nb_d := d_new NB_TYPE; nb_type := 0; nb_len := 0; nb_pay := None |}.
+
+(* nb_type and length are recorded and never looked at *)
+Definition nbt_byte (s : nbt) (b : N) : res nbt :=
+  let d := nb_d s in
+  let st := d_st d in
+  if st =? NB_TYPE then Ok (set_nb_d (set_nb_type s b) (d_next NB_RESERVED))
+  else if st =? NB_RESERVED then Ok (set_nb_d s (d_next NB_LENGTH))
+  else if st =? NB_LENGTH then
+    let '(v, d1) := read_u16 d b (nb_len s) NB_END in
+    Ok (set_nb_d (set_nb_len s v) d1)
+  else
+    (* get_payload: created on the first payload byte *)
+    let p := match nb_pay s with Some p => p | None => t_new end in
+    do p' <- t_byte p b;
+    Ok (set_nb_pay s (Some p')).
+
+Definition nbt_repl (s : nbt) : res (option bytes) :=
+  match nb_pay s with
+  | None => Ok None
+  | Some p =>
+    match t_repl p with
+    | None => Ok None
+    | Some r =>
+      let size := N.land (lenN r) 131071 in                       (* & 0x1ffff *)
+      let hi := N.land (N.shiftr (size mod W32) 16) 255 in
+      if 256 <=? hi then Panic PANIC_NBT_SIZE                     (* smb.rs:100 *)
+      else Ok (Some ([0; hi] ++ be16 (N.land size 65535) ++ r))
+    end
+  end.
+
+Definition nbt_run (data : bytes) : res (option bytes) :=
+  do s <- fold_res nbt_byte data nbt_new;
+  nbt_repl s.
+End NBT.
+
+(* ---------- repl_smb1 / repl_smb2 ---------- *)
+Definition smb1_repl (neg_blob chal_blob : bytes) (filetime : N) (data : bytes) : res (option bytes) :=
+  nbt_run hdr1 hdr1_new hdr1_byte (hdr1_repl neg_blob chal_blob filetime) data.
+
+Definition smb2_repl (neg_blob chal_blob : bytes) (filetime : N) (data : bytes) : res (option bytes) :=
+  nbt_run hdr2 hdr2_new hdr2_byte (hdr2_repl neg_blob chal_blob filetime) data.
